@@ -40,12 +40,17 @@ CommentChunks ==
 \* what follows a schema body: the dependency measures the body (Len) and also reads what stands behind it
 \* (explored WITHOUT the VIEW: what the dependency does behind a body depends on the bytes it has already read there)
 BodyTailChunks ==
-  {PlainChunk(<<x>>) : x \in {10, 32, 35, 47, 40, 41, 120}}
+  {PlainChunk(<<x>>) : x \in {10, 13, 32, 35, 47, 40, 41, 120}}
   \cup {PlainChunk(KwBytes["GET"]), PlainChunk(<<32,47,97>>)}                          \* GET, " /a"
+\* a regex body and what follows it (the regex states are the library's own): every line-break convention
+RegexChunks ==
+  {PlainChunk(<<x>>) : x \in {10, 13, 32, 35, 47, 97, 92}}
+  \cup {PlainChunk(KwBytes["GET"]), PlainChunk(<<47,97,47>>)}                              \* GET, /a/
 Chunks == IF Focus = "description" THEN DescChunks ELSE IF Focus = "comments" THEN CommentChunks
-          ELSE IF Focus = "bodytail" THEN BodyTailChunks ELSE AllChunks
+          ELSE IF Focus = "bodytail" THEN BodyTailChunks ELSE IF Focus = "regex" THEN RegexChunks ELSE AllChunks
 Start == IF Focus = "description" THEN FeedChunk(Init0, PlainChunk(KwBytes["Description"] \o <<10>>))
          ELSE IF Focus = "bodytail" THEN FeedChunk(FeedChunk(Init0, PlainChunk(KwBytes["TYPE"] \o <<32,64,116,10>>)), BodyChunk(<<123,125>>, TRUE, FALSE, 0))   \* TYPE @t / {}
+         ELSE IF Focus = "regex" THEN FeedChunk(Init0, PlainChunk(KwBytes["TYPE"] \o <<32,64,116,32>> \o RegexB))      \* TYPE @t regex
          ELSE Init0
 
 Init == st = Start
